@@ -7,14 +7,26 @@ export VERIF_ROOT="$(pwd)"
 export GOFLAGS=-mod=mod GOPROXY=off GOSUMDB=off GOTOOLCHAIN=local GOCACHE=/verif/.gocache CGO_ENABLED=0 GOGC=400
 id="$1"; mode="${2:-quick}"; shift; shift || true
 lc=$(echo "$id" | tr 'A-Z' 'a-z')
-mkdir -p .work/bin
+# VERIF_REPO=<dir> (development aid): build against another checkout of paulmach/orb instead of /repo, with its
+# own binaries and overlays and without touching evidence/. The registered commands never set it.
+export VERIF_REPO="${VERIF_REPO:-/repo}"
+export VERIF_BINDIR=".work/bin" VERIF_TAG="" VERIF_MODFLAG=""
+if [ "$VERIF_REPO" != /repo ]; then
+  VERIF_TAG="-$(echo "$VERIF_REPO" | md5sum | cut -c1-8)"
+  VERIF_BINDIR=".work/bin$VERIF_TAG"
+  mkdir -p ".work/alt$VERIF_TAG"
+  sed "s|=> /repo|=> $VERIF_REPO|" go.mod > ".work/alt$VERIF_TAG/go.mod"; cp go.sum ".work/alt$VERIF_TAG/go.sum"
+  VERIF_MODFLAG="-modfile=$(pwd)/.work/alt$VERIF_TAG/go.mod"
+  export VERIF_NO_EVIDENCE=1
+fi
+mkdir -p "$VERIF_BINDIR"
 if [ -x "checks/$lc/build.sh" ]; then
-  "checks/$lc/build.sh" ".work/bin/$lc" || { echo "HARNESS-ERROR build failed for $id"; exit 2; }
+  "checks/$lc/build.sh" "$VERIF_BINDIR/$lc" || { echo "HARNESS-ERROR build failed for $id"; exit 2; }
 else
-  go build -o ".work/bin/$lc" "./checks/$lc" || { echo "HARNESS-ERROR build failed for $id"; exit 2; }
+  go build $VERIF_MODFLAG -o "$VERIF_BINDIR/$lc" "./checks/$lc" || { echo "HARNESS-ERROR build failed for $id"; exit 2; }
 fi
 if [ "$mode" = replay ]; then
-  exec ".work/bin/$lc" --replay "$1"
+  exec "$VERIF_BINDIR/$lc" --replay "$1"
 fi
 export VERIF_TIER="$mode"
-exec ".work/bin/$lc" --tier "$mode" "$@"
+exec "$VERIF_BINDIR/$lc" --tier "$mode" "$@"
